@@ -272,7 +272,9 @@ theorem ext_helperStep (c : Committee) (s : Node) (d : Digest) (o : Nat) : Ext s
   · split
     · exact ext_emit s _
     · exact Ext.refl s
-    · exact Ext.refl s
+    · split
+      · exact Ext.refl s
+      · exact ext_fail _ _
 
 theorem ext_step (c : Committee) (s : Node) (e : Event) : Ext s (step c s e) := by
   unfold step
